@@ -4,15 +4,22 @@ package main
 // spec/Matcher/RelayPolicy.tla.  Injected with `go test -overlay`; nothing is
 // written into the repository.
 //
-// Input  (env VERIF_C06_CASES): ndjson printed by TLC, one case per line
-//         {"allowed":[chars],"presumed":[chars],"present":bool,"value":[chars],"reject":bool}
-// Output (env VERIF_C06_OUT): ndjson of non-conforming cases {"idx","sig","detail","case"}
+// Input  (env VERIF_C06_CASES): ndjson, one HISTORY per line: a broker
+//         configuration and the polls that arrive on it, in order
+//         {"allowed":[chars],"presumed":[chars],"order":"forward|reverse|shuffle|tlc-history",
+//          "polls":[{"present":bool,"value":[chars],"reject":bool,"idx":n}, ...]}
+//         (allowed, presumed, the polls and `reject` are printed by TLC; the
+//         check arranges the single-poll cases of one configuration into
+//         several orders, TLC's own multi-poll histories come as they are).
+// Output (env VERIF_C06_OUT): ndjson of non-conforming polls {"idx","sig","detail","case"}
 //         and one {"summary":{...}} line.
 //
-// For every broker configuration (allowed, presumed) a fresh BrokerContext is
-// configured through InstallBridgeListProfile (the path main() uses) and every
-// poll of that configuration is sent through the real HTTP handler
-// proxyPolls.  Signatures:
+// For every line a fresh BrokerContext is configured through
+// InstallBridgeListProfile (the path main() uses) and the polls are sent ONE
+// AFTER THE OTHER through the real HTTP handler proxyPolls: the next poll is
+// sent when the previous one has been answered or has shown up as registered.
+// The verdict on a poll must not depend on what was polled before.
+// Signatures:
 //   broker/...    the code violates C06 (a poll that must be rejected is
 //                 registered / not answered with "incorrect relay pattern" / a
 //                 client is handed to it)
@@ -38,12 +45,23 @@ import (
 )
 
 type verifC06Case struct {
-	Allowed  []string `json:"allowed"`
-	Presumed []string `json:"presumed"`
+	Allowed  []string `json:"-"`
+	Presumed []string `json:"-"`
 	Present  bool     `json:"present"`
 	Value    []string `json:"value"`
 	Reject   bool     `json:"reject"`
+	Idx      int      `json:"idx"`
 	idx      int
+	order    string
+	pos      int
+	before   string // the polls handled earlier on the same context
+}
+
+type verifC06History struct {
+	Allowed  []string        `json:"allowed"`
+	Presumed []string        `json:"presumed"`
+	Order    string          `json:"order"`
+	Polls    []*verifC06Case `json:"polls"`
 }
 
 type verifC06Result struct {
@@ -63,7 +81,8 @@ func (o *verifC06Out) put(c *verifC06Case, sig, detail string) {
 	defer o.mu.Unlock()
 	o.res = append(o.res, verifC06Result{Idx: c.idx, Sig: sig, Detail: detail, Case: map[string]interface{}{
 		"allowed": strings.Join(c.Allowed, ""), "presumed": strings.Join(c.Presumed, ""),
-		"present": c.Present, "value": strings.Join(c.Value, ""), "reject": c.Reject}})
+		"present": c.Present, "value": strings.Join(c.Value, ""), "reject": c.Reject,
+		"order": c.order, "position": c.pos, "earlier_polls": c.before}})
 }
 
 // splitmix64, keyed by seed and case index
@@ -119,9 +138,17 @@ func verifC06Class(c *verifC06Case) string {
 	return "pattern=absent(legacy)"
 }
 
-func verifC06RunConfig(cases []*verifC06Case, seed uint64, out *verifC06Out, stats *verifC06Stats) {
-	allowed := strings.Join(cases[0].Allowed, "")
-	presumed := strings.Join(cases[0].Presumed, "")
+func verifC06Describe(c *verifC06Case) string {
+	if !c.Present {
+		return "legacy"
+	}
+	return strconv.Quote(strings.Join(c.Value, ""))
+}
+
+func verifC06RunHistory(hy *verifC06History, seed uint64, out *verifC06Out, stats *verifC06Stats) {
+	cases := hy.Polls
+	allowed := strings.Join(hy.Allowed, "")
+	presumed := strings.Join(hy.Presumed, "")
 	ctx := NewBrokerContext(log.New(ioutil.Discard, "", 0))
 	if err := ctx.InstallBridgeListProfile(strings.NewReader(verifC06Bridges), allowed, presumed); err != nil {
 		panic(err)
@@ -130,8 +157,8 @@ func verifC06RunConfig(cases []*verifC06Case, seed uint64, out *verifC06Out, sta
 	go ctx.Broker()
 
 	nats := []string{NATUnrestricted, NATRestricted, NATUnknown, ""}
-	start := func(c *verifC06Case) *verifC06Poll {
-		p := &verifC06Poll{c: c, sid: "sid-" + strconv.Itoa(c.idx), done: make(chan struct{})}
+	start := func(c *verifC06Case, pos int) *verifC06Poll {
+		p := &verifC06Poll{c: c, sid: fmt.Sprintf("sid-%d-%d", c.idx, pos), done: make(chan struct{})}
 		p.nat = nats[verifC06Rand(seed, c.idx, 1)%uint64(len(nats))]
 		p.rec = httptest.NewRecorder()
 		body := verifC06PollBody(c, p.sid, p.nat, seed)
@@ -142,21 +169,19 @@ func verifC06RunConfig(cases []*verifC06Case, seed uint64, out *verifC06Out, sta
 		}()
 		return p
 	}
-	returned := func(p *verifC06Poll, d time.Duration) bool {
+	returned := func(p *verifC06Poll) bool {
 		select {
 		case <-p.done:
 			return true
 		default:
-		}
-		if d <= 0 {
 			return false
 		}
-		select {
-		case <-p.done:
-			return true
-		case <-time.After(d):
-			return false
-		}
+	}
+	registered := func(sid string) bool {
+		ctx.snowflakeLock.Lock()
+		defer ctx.snowflakeLock.Unlock()
+		_, ok := ctx.idToSnowflake[sid]
+		return ok
 	}
 	status := func(p *verifC06Poll) string {
 		var m struct{ Status string }
@@ -168,131 +193,102 @@ func verifC06RunConfig(cases []*verifC06Case, seed uint64, out *verifC06Out, sta
 		}
 		return m.Status
 	}
-
-	// Phase 1: the polls that must be rejected.
-	var rej, acc []*verifC06Poll
-	for _, c := range cases {
-		if c.Reject {
-			rej = append(rej, start(c))
-		}
-	}
-	// wait until every such poll has either returned or shows up as registered
-	deadline := time.Now().Add(3 * time.Second)
-	for {
-		ids, _ := verifC06Registered(ctx)
-		reg := map[string]bool{}
-		for _, id := range ids {
-			reg[id] = true
-		}
-		pending := 0
-		for _, p := range rej {
-			if !returned(p, 0) && !reg[p.sid] {
-				pending++
-			}
-		}
-		if pending == 0 || time.Now().After(deadline) {
-			break
-		}
-		time.Sleep(time.Millisecond)
-	}
-	clean := true
-	for _, p := range rej {
-		if !returned(p, 0) {
-			clean = false
-			ids, _ := verifC06Registered(ctx)
-			reg := false
-			for _, id := range ids {
-				reg = reg || id == p.sid
-			}
-			if reg {
-				out.put(p.c, "broker/must-reject-registered/"+verifC06Class(p.c),
-					fmt.Sprintf("allowed=%q presumed=%q poll pattern present=%v value=%q: not a superset of the allowed pattern, yet the poll was registered (waiting for a client) instead of rejected",
-						allowed, presumed, p.c.Present, strings.Join(p.c.Value, "")))
-			} else {
-				out.put(p.c, "diverge/must-reject-no-response/"+verifC06Class(p.c), "poll neither answered within 3 s nor registered")
-			}
-			continue
-		}
-		if st := status(p); st != "incorrect relay pattern" {
-			clean = false
-			out.put(p.c, "broker/reject-not-explicit/"+verifC06Class(p.c),
-				fmt.Sprintf("allowed=%q presumed=%q poll pattern present=%v value=%q must be rejected with status \"incorrect relay pattern\"; response: %s",
-					allowed, presumed, p.c.Present, strings.Join(p.c.Value, ""), st))
-			continue
-		}
-		stats.add(&stats.rejected, 1)
-	}
-	if len(rej) > 0 {
-		ids, heaps := verifC06Registered(ctx)
-		if clean && (len(ids) != 0 || heaps != 0) {
-			out.put(rej[0].c, "broker/rejected-poll-left-registration",
-				fmt.Sprintf("allowed=%q presumed=%q: after %d rejected polls idToSnowflake=%v heap entries=%d", allowed, presumed, len(rej), ids, heaps))
-			clean = false
-		}
-		if clean {
-			// "never gives such a proxy a client": a client of either NAT class finds nobody.
-			for _, cnat := range []string{NATUnrestricted, NATRestricted} {
-				w := httptest.NewRecorder()
-				body := "1.0\n{\"offer\":\"fake\",\"nat\":\"" + cnat + "\",\"fingerprint\":\"2B280B23E1107BB62ABFC40DDCC8824814F80A72\"}"
-				r := httptest.NewRequest("POST", "http://snowflake.broker/client", strings.NewReader(body))
-				done := make(chan struct{})
-				go func() { defer close(done); clientOffers(ipc, w, r) }()
-				select {
-				case <-done:
-					if !strings.Contains(w.Body.String(), "no snowflake proxies currently available") {
-						out.put(rej[0].c, "broker/client-given-to-rejected-proxy",
-							fmt.Sprintf("allowed=%q presumed=%q: only rejected polls so far, client (%s) got %d %q", allowed, presumed, cnat, w.Code, w.Body.String()))
-					}
-				case <-time.After(3 * time.Second):
-					out.put(rej[0].c, "broker/client-given-to-rejected-proxy",
-						fmt.Sprintf("allowed=%q presumed=%q: only rejected polls so far, yet a client (%s) was matched and is waiting for an answer", allowed, presumed, cnat))
+	// "never gives such a proxy a client": while nothing may be registered, a
+	// client of either NAT class finds nobody.
+	probe := func(c *verifC06Case) {
+		for _, cnat := range []string{NATUnrestricted, NATRestricted} {
+			w := httptest.NewRecorder()
+			body := "1.0\n{\"offer\":\"fake\",\"nat\":\"" + cnat + "\",\"fingerprint\":\"2B280B23E1107BB62ABFC40DDCC8824814F80A72\"}"
+			r := httptest.NewRequest("POST", "http://snowflake.broker/client", strings.NewReader(body))
+			done := make(chan struct{})
+			go func() { defer close(done); clientOffers(ipc, w, r) }()
+			select {
+			case <-done:
+				if !strings.Contains(w.Body.String(), "no snowflake proxies currently available") {
+					out.put(c, "broker/client-given-to-rejected-proxy",
+						fmt.Sprintf("allowed=%q presumed=%q: only polls that must be rejected so far (%s), client (%s) got %d %q", allowed, presumed, c.before, cnat, w.Code, w.Body.String()))
 				}
-				stats.add(&stats.clientProbes, 1)
+			case <-time.After(3 * time.Second):
+				out.put(c, "broker/client-given-to-rejected-proxy",
+					fmt.Sprintf("allowed=%q presumed=%q: only polls that must be rejected so far (%s), yet a client (%s) was matched and is waiting for an answer", allowed, presumed, c.before, cnat))
 			}
+			stats.add(&stats.clientProbes, 1)
 		}
 	}
 
-	// Phase 2: the polls the model registers (C06 demands nothing of them).
-	for _, c := range cases {
-		if !c.Reject {
-			acc = append(acc, start(c))
+	var earlier []string
+	wantRegistered := map[string]bool{}
+	clean, probed := true, false
+	for pos, c := range cases {
+		c.Allowed, c.Presumed, c.order, c.pos = hy.Allowed, hy.Presumed, hy.Order, pos
+		c.before = strings.Join(earlier, ", ")
+		earlier = append(earlier, verifC06Describe(c))
+		what := fmt.Sprintf("allowed=%q presumed=%q, poll %d of this context (%s order; earlier polls: [%s]): pattern %s",
+			allowed, presumed, pos+1, hy.Order, c.before, verifC06Describe(c))
+		if !c.Reject && !probed {
+			// first admissible poll of this context: until now nothing may be registered
+			if clean && pos > 0 {
+				probe(cases[pos-1])
+			}
+			probed = true
+		}
+		p := start(c, pos)
+		// the poll is handled when it has been answered or shows up as registered
+		deadline := time.Now().Add(3 * time.Second)
+		for !returned(p) && !registered(p.sid) && time.Now().Before(deadline) {
+			time.Sleep(20 * time.Microsecond)
+		}
+		ret := returned(p)
+		reg := !ret && registered(p.sid)
+		switch {
+		case c.Reject && reg:
+			clean = false
+			out.put(c, "broker/must-reject-registered/"+verifC06Class(c),
+				what+" is not a superset of the allowed pattern, yet the poll was registered (waiting for a client) instead of rejected")
+		case c.Reject && !ret:
+			clean = false
+			out.put(c, "diverge/must-reject-no-response/"+verifC06Class(c), what+": neither answered within 3 s nor registered")
+		case c.Reject:
+			if st := status(p); st != "incorrect relay pattern" {
+				clean = false
+				out.put(c, "broker/reject-not-explicit/"+verifC06Class(c), what+" must be rejected with status \"incorrect relay pattern\"; response: "+st)
+			} else if registered(p.sid) {
+				clean = false
+				out.put(c, "broker/rejected-poll-left-registration", what+": answered \"incorrect relay pattern\" but the proxy is registered")
+			} else {
+				stats.add(&stats.rejected, 1)
+			}
+		case reg:
+			wantRegistered[p.sid] = true
+			stats.add(&stats.registered, 1)
+		default:
+			st := "no response"
+			if ret {
+				st = status(p)
+			}
+			out.put(c, "diverge/accepted-in-model-not-registered/"+verifC06Class(c),
+				what+" is a superset of the allowed pattern; the model registers it, the code did not ("+st+")")
 		}
 	}
-	deadline = time.Now().Add(3 * time.Second)
-	for {
-		ids, _ := verifC06Registered(ctx)
-		reg := map[string]bool{}
+	// exactly the polls the model registers are registered
+	ids, heaps := verifC06Registered(ctx)
+	if clean {
+		extra := []string{}
 		for _, id := range ids {
-			reg[id] = true
-		}
-		pending := 0
-		for _, p := range acc {
-			if !reg[p.sid] && !returned(p, 0) {
-				pending++
+			if !wantRegistered[id] {
+				extra = append(extra, id)
 			}
 		}
-		if pending == 0 || time.Now().After(deadline) {
-			break
+		if len(extra) > 0 || heaps > len(wantRegistered) {
+			out.put(cases[len(cases)-1], "broker/rejected-poll-left-registration",
+				fmt.Sprintf("allowed=%q presumed=%q (%s order): idToSnowflake has %v beyond the admissible polls, heap entries=%d for %d admissible", allowed, presumed, hy.Order, extra, heaps, len(wantRegistered)))
+			clean = false
 		}
-		time.Sleep(time.Millisecond)
-	}
-	ids, _ := verifC06Registered(ctx)
-	have := map[string]bool{}
-	for _, id := range ids {
-		have[id] = true
-	}
-	for _, p := range acc {
-		if have[p.sid] {
-			stats.add(&stats.registered, 1)
-			continue
+		if clean && !probed && len(wantRegistered) == 0 {
+			c := cases[len(cases)-1]
+			c.before = strings.Join(earlier, ", ")
+			probe(c)
 		}
-		st := "no response"
-		if returned(p, 0) {
-			st = status(p)
-		}
-		out.put(p.c, "diverge/accepted-in-model-not-registered/"+verifC06Class(p.c),
-			fmt.Sprintf("allowed=%q presumed=%q poll pattern present=%v value=%q is a superset of the allowed pattern; the model registers it, the code did not (%s)",
-				allowed, presumed, p.c.Present, strings.Join(p.c.Value, ""), st))
 	}
 	// the registered polls are abandoned here; their 10 s timers end with the process
 }
@@ -316,8 +312,7 @@ func TestVerifC06RelayPattern(t *testing.T) {
 		t.Fatal(err)
 	}
 	defer f.Close()
-	groups := map[string][]*verifC06Case{}
-	var keys []string
+	var hys []*verifC06History
 	sc := bufio.NewScanner(f)
 	sc.Buffer(make([]byte, 1<<20), 1<<26)
 	n := 0
@@ -325,17 +320,15 @@ func TestVerifC06RelayPattern(t *testing.T) {
 		if len(bytes.TrimSpace(sc.Bytes())) == 0 {
 			continue
 		}
-		c := &verifC06Case{}
-		if err := json.Unmarshal(sc.Bytes(), c); err != nil {
-			t.Fatalf("bad case %d: %v", n, err)
+		hy := &verifC06History{}
+		if err := json.Unmarshal(sc.Bytes(), hy); err != nil || len(hy.Polls) == 0 {
+			t.Fatalf("bad history %d: %v", len(hys), err)
 		}
-		c.idx = n
-		n++
-		k := strings.Join(c.Allowed, "") + "\x00" + strings.Join(c.Presumed, "")
-		if groups[k] == nil {
-			keys = append(keys, k)
+		for _, c := range hy.Polls {
+			c.idx = c.Idx
+			n++
 		}
-		groups[k] = append(groups[k], c)
+		hys = append(hys, hy)
 	}
 	if err := sc.Err(); err != nil {
 		t.Fatal(err)
@@ -344,19 +337,19 @@ func TestVerifC06RelayPattern(t *testing.T) {
 	stats := &verifC06Stats{}
 	sem := make(chan struct{}, 16)
 	var wg sync.WaitGroup
-	for _, k := range keys {
+	for _, hy := range hys {
 		wg.Add(1)
 		sem <- struct{}{}
-		go func(cs []*verifC06Case) {
+		go func(hy *verifC06History) {
 			defer wg.Done()
 			defer func() { <-sem }()
 			defer func() {
 				if v := recover(); v != nil {
-					out.put(cs[0], "broker/panic", fmt.Sprint(v))
+					out.put(hy.Polls[0], "broker/panic", fmt.Sprint(v))
 				}
 			}()
-			verifC06RunConfig(cs, seed, out, stats)
-		}(groups[k])
+			verifC06RunHistory(hy, seed, out, stats)
+		}(hy)
 	}
 	wg.Wait()
 	of, err := os.Create(outp)
@@ -370,7 +363,7 @@ func TestVerifC06RelayPattern(t *testing.T) {
 		enc.Encode(r)
 	}
 	enc.Encode(map[string]interface{}{"summary": map[string]interface{}{
-		"cases": n, "nontrivial": stats.rejected, "configs": len(keys),
+		"cases": n, "nontrivial": stats.rejected, "configs": len(hys),
 		"rejected": stats.rejected, "registered": stats.registered, "client_probes": stats.clientProbes}})
 	w.Flush()
 	of.Close()
